@@ -16,6 +16,7 @@ import (
 	"github.com/bmeg/grip/gripql"
 
 	"github.com/kennygrant/sanitize"
+	"google.golang.org/protobuf/proto"
 )
 
 type Stream struct {
@@ -35,10 +36,30 @@ type JobStorage interface {
 }
 
 type Job struct {
+	mu            sync.RWMutex // guards Status: the spooling goroutine updates it while it is served
 	Status        gripql.JobStatus
 	DataType      gdbi.DataType
 	MarkTypes     map[string]gdbi.DataType
 	StepChecksums []string
+}
+
+// getStatus returns a copy of the job status
+func (job *Job) getStatus() *gripql.JobStatus {
+	job.mu.RLock()
+	defer job.mu.RUnlock()
+	return proto.Clone(&job.Status).(*gripql.JobStatus)
+}
+
+func (job *Job) setState(state gripql.JobState) {
+	job.mu.Lock()
+	defer job.mu.Unlock()
+	job.Status.State = state
+}
+
+func (job *Job) addCount(n uint64) {
+	job.mu.Lock()
+	defer job.mu.Unlock()
+	job.Status.Count += n
 }
 
 func jobKey(graph, job string) string {
@@ -90,8 +111,8 @@ func (fs *FSResults) List(graph string) (chan string, error) {
 		defer close(out)
 		fs.jobs.Range(func(key, value interface{}) bool {
 			vJob := value.(*Job)
-			if vJob.Status.Graph == graph {
-				out <- vJob.Status.Id
+			if status := vJob.getStatus(); status.Graph == graph {
+				out <- status.Id
 			}
 			return true
 		})
@@ -106,9 +127,9 @@ func (fs *FSResults) Search(graph string, Query []*gripql.GraphStatement) (chan 
 		defer close(out)
 		fs.jobs.Range(func(key, value interface{}) bool {
 			vJob := value.(*Job)
-			if vJob.Status.Graph == graph {
+			if status := vJob.getStatus(); status.Graph == graph {
 				if JobMatch(qcs, vJob.StepChecksums) {
-					out <- &vJob.Status
+					out <- status
 				}
 			}
 			return true
@@ -146,26 +167,26 @@ func (fs *FSResults) Spool(graph string, stream *Stream) (string, error) {
 	fs.jobs.Store(jobKey(graph, jobName), job)
 	tbStream := MarshalStream(stream.Pipe, 4) //TODO: make worker count configurable
 	go func() {
-		job.Status.State = gripql.JobState_RUNNING
-		log.Printf("Starting Job: %#v", job)
+		job.setState(gripql.JobState_RUNNING)
+		log.Printf("Starting Job: %s", jobName)
 		defer resultFile.Close()
 		for i := range tbStream {
 			resultFile.Write(i)
 			resultFile.Write([]byte("\n"))
-			job.Status.Count += 1
+			job.addCount(1)
 		}
 		statusPath := filepath.Join(spoolDir, "status")
 		statusFile, err := os.Create(statusPath)
 		if err == nil {
 			defer statusFile.Close()
-			job.Status.State = gripql.JobState_COMPLETE
+			job.setState(gripql.JobState_COMPLETE)
 			out, err := json.Marshal(job)
 			if err == nil {
 				statusFile.Write([]byte(fmt.Sprintf("%s\n", out)))
 			}
-			log.Printf("Job Done: %s (%d results)", jobName, job.Status.Count)
+			log.Printf("Job Done: %s (%d results)", jobName, job.getStatus().Count)
 		} else {
-			job.Status.State = gripql.JobState_ERROR
+			job.setState(gripql.JobState_ERROR)
 			log.Printf("Job Error: %s %s", jobName, err)
 		}
 	}()
@@ -175,7 +196,7 @@ func (fs *FSResults) Spool(graph string, stream *Stream) (string, error) {
 func (fs *FSResults) Stream(ctx context.Context, graph, id string) (*Stream, error) {
 	if v, ok := fs.jobs.Load(jobKey(graph, id)); ok {
 		vJob := v.(*Job)
-		if vJob.Status.State == gripql.JobState_COMPLETE {
+		if vJob.getStatus().State == gripql.JobState_COMPLETE {
 			resultFile := filepath.Join(fs.BaseDir, sanitize.Name(graph), sanitize.Name(id), "results")
 			results, err := os.Open(resultFile)
 			if err != nil {
@@ -213,7 +234,7 @@ func (fs *FSResults) Stream(ctx context.Context, graph, id string) (*Stream, err
 func (fs *FSResults) Delete(graph, id string) error {
 	if v, ok := fs.jobs.Load(jobKey(graph, id)); ok {
 		vJob := v.(*Job)
-		if vJob.Status.State == gripql.JobState_RUNNING || vJob.Status.State == gripql.JobState_QUEUED {
+		if state := vJob.getStatus().State; state == gripql.JobState_RUNNING || state == gripql.JobState_QUEUED {
 			return fmt.Errorf("Job cancel not yet implemented")
 		}
 		fs.jobs.Delete(jobKey(graph, id))
@@ -226,8 +247,7 @@ func (fs *FSResults) Delete(graph, id string) error {
 func (fs *FSResults) Status(graph, id string) (*gripql.JobStatus, error) {
 	if v, ok := fs.jobs.Load(jobKey(graph, id)); ok {
 		vJob := v.(*Job)
-		a := vJob.Status
-		return &a, nil
+		return vJob.getStatus(), nil
 	}
 	return nil, fmt.Errorf("Job Not Found")
 }
